@@ -9,3 +9,10 @@ pub open spec fn schema_ids_wf(s: &Schema) -> bool {
     &&& (s.mutation_type matches Some(o) ==> (o.0 as int) < s.stored_objects@.len())
     &&& (s.subscription_type matches Some(o) ==> (o.0 as int) < s.stored_objects@.len())
 }
+// the schema half of bound_wf (the precondition of the code-generation units)
+pub open spec fn schema_wf(s: &Schema) -> bool {
+    &&& s.stored_objects@.len() <= 0xffff_ffff
+    &&& forall|f: int| 0 <= f < s.stored_fields@.len() ==> type_in_range(s, (#[trigger] s.stored_fields@[f]).r#type.id)
+    &&& forall|u: int, k: int| 0 <= u < s.stored_unions@.len() && 0 <= k < s.stored_unions@[u].variants@.len()
+            ==> type_in_range(s, #[trigger] s.stored_unions@[u].variants@[k])
+}
